@@ -668,6 +668,26 @@ class Setters(common.Suite):
         obs["forwarded"] = bool(np.all(np.asarray(held) == np.asarray(new).reshape(np.shape(held))))
         obs["after"] = observe(crit, mc.context, rng, [u for u, _ in p2])
         obs["branch"] = f"{kind}.{attr}:{k1}->{k2}"
+        # ... and keeps applying: a few real trials later (accepted and rejected ones: save_state / revert_state / reset have
+        # run) every control parameter still holds what the user assigned; only the particle count follows the exchanges
+        settings = {"can": ["temperature"], "npt": ["temperature", "pressure"],
+                    "nst": ["temperature", "pressure", "external_stress"],
+                    "gc": ["temperature", "chemical_potential", "accessible_volume"]}[kind]
+        want = {a: np.array(getattr(mc, a), dtype=float).copy() for a in settings}
+        mc.context.rng = common.get_rng(mc)
+        if kind in ("npt", "nst"):
+            atoms.set_cell(np.array(case["cell0"]).reshape(3, 3), scale_atoms=True)
+        try:
+            import warnings
+            with warnings.catch_warnings():
+                warnings.simplefilter("ignore")
+                mc.run(3)
+            obs["survives"] = {a: bool(np.array_equal(np.array(getattr(mc, a), dtype=float), want[a])
+                                       and np.array_equal(np.array(getattr(mc.context, a), dtype=float), want[a]))
+                               for a in settings}
+            obs["outcomes"] = len(getattr(mc, "move_history", []))
+        except Exception as e:  # noqa: BLE001
+            obs["survives_error"] = f"{type(e).__name__}: {e}"[:200]
         return obs
 
     def model_lines(self, case):
@@ -695,6 +715,11 @@ class Setters(common.Suite):
             out.append((f"setter:readback:{attr}", "the property does not return the value just set"))
         if not obs["forwarded"]:
             out.append((f"setter:not-applied:{attr}", f"context.{attr} does not hold the value assigned to mc.{attr}"))
+        for a, ok in obs.get("survives", {}).items():
+            if not ok:
+                out.append((f"setter:lost-after-trials:{a}", f"mc.{a} no longer holds the assigned value after three steps"))
+        if "survives_error" in obs:
+            out.append((f"setter:run-after-setting-raised:{case['kind']}", obs["survives_error"]))
         for label, pl in (("before", p1), ("after", p2)):
             for (u, want), got in zip(pl, obs[label]):
                 if got.startswith("X:"):
